@@ -182,13 +182,73 @@ def mc_cases(st):
             yield rec
 
 
+DIED = []      # cases on which the library took the whole harness process down (filled by run_harness, read by the checks)
+
+
+def _harness_part(mode, cases_path, trace_path, args, deadline):
+    """runs the harness on one file of cases; if the process dies (a panic that escapes, an abort, a stack overflow,
+    a signal) the case that did it is recorded in DIED, its partial events are dropped and the run goes on with the
+    cases after it.  Returns None, or an error text for tool errors."""
+    lines = open(cases_path).read().splitlines(True)
+    open(trace_path, "w").close()
+    deaths = 0
+    while lines:
+        part_c, part_t = cases_path + ".run", trace_path + ".run"
+        with open(part_c, "w") as f:
+            f.writelines(lines)
+        try:
+            with open(part_c) as fi:
+                rc = subprocess.run([HARNESS_BIN, mode, part_t] + (args or []), stdin=fi, stdout=subprocess.DEVNULL,
+                                    timeout=max(1, deadline - time.time())).returncode
+        except subprocess.TimeoutExpired:
+            return "harness timeout"
+        done = set()
+        if os.path.exists(part_t + ".done"):
+            done = {x.strip() for x in open(part_t + ".done") if x.strip()}
+        keep = []
+        if os.path.exists(part_t):
+            for ln in open(part_t):
+                try:
+                    if rc == 0 or json.dumps(json.loads(ln).get("case")) in done:
+                        keep.append(ln)
+                except ValueError:
+                    pass          # a line cut by the death of the process
+        with open(trace_path, "a") as fo:
+            fo.writelines(keep)
+        for x in (part_c, part_t, part_t + ".done"):
+            if os.path.exists(x):
+                os.remove(x)
+        if rc == 0:
+            return None
+        if rc == 2:
+            return "harness failed with code 2"
+        # which case was being handled
+        k = 0
+        while k < len(lines) and json.dumps(json.loads(lines[k]).get("case")) in done:
+            k += 1
+        if k >= len(lines):
+            return "harness failed with code %d after its last case" % rc
+        DIED.append(dict(case=json.loads(lines[k]).get("case"), how=("signal:%d" % -rc) if rc < 0 else ("exit:%d" % rc)))
+        lines = lines[k + 1:]
+        deaths += 1
+        if deaths > 25:
+            break         # enough: the remaining cases of this part are not run, the deaths are reported
+    return None
+
+
 def run_harness(mode, cases_path, trace_path, timeout=3000, args=None):
     """runs the harness on a file of cases (one per line; cases are independent of each other): large files are
     cut into contiguous shards handled by parallel processes, and the traces are concatenated in order"""
+    deadline = time.time() + timeout
     with open(cases_path) as fi:
         n = sum(1 for _ in fi)
     k = max(1, min(NCPU, n // 400))
-    if k == 1:
+    if k == 1 or mode not in ("cases", "fault"):
+        if mode in ("cases", "fault"):
+            bad = _harness_part(mode, cases_path, trace_path, args, deadline)
+            if bad:
+                raise ToolError(bad)
+            return
         with open(cases_path) as fi:
             try:
                 r = subprocess.run([HARNESS_BIN, mode, trace_path] + (args or []), stdin=fi, stdout=subprocess.DEVNULL, timeout=timeout)
@@ -209,21 +269,9 @@ def run_harness(mode, cases_path, trace_path, timeout=3000, args=None):
                         break
                     fo.write(line)
             parts.append((cp, tp))
-    procs = []
-    for cp, tp in parts:
-        procs.append(subprocess.Popen([HARNESS_BIN, mode, tp] + (args or []), stdin=open(cp), stdout=subprocess.DEVNULL))
-    t0 = time.time()
-    bad = None
-    for pr in procs:
-        try:
-            rc = pr.wait(timeout=max(1, timeout - (time.time() - t0)))
-            if rc != 0:
-                bad = "harness failed with code %d" % rc
-        except subprocess.TimeoutExpired:
-            bad = "harness timeout"
-            for q in procs:
-                q.kill()
-            break
+    with cf.ThreadPoolExecutor(max_workers=k) as ex:
+        results = list(ex.map(lambda pt: _harness_part(mode, pt[0], pt[1], args, deadline), parts))
+    bad = next((r for r in results if r), None)
     if bad is None:
         with open(trace_path, "w") as fo:
             for cp, tp in parts:
